@@ -513,9 +513,10 @@ func Run(r *core.Run) {
 	hashPart(r, alpha, 3, 3)
 	lengthFieldProbes(r)
 	purityPart(r)
+	tagPart(r)
 	commitPart(r, 4)
 	builderPart(r, maxSeq)
-	ev := r.Get("hash_bytes_tuples") + r.Get("hash_int_tuples") + r.Get("hash_tagged_inputs") + r.Get("purity_calls") + r.Get("commit_edits") + r.Get("builder_layouts") + r.Get("parse_sequences")
+	ev := r.Get("hash_bytes_tuples") + r.Get("hash_int_tuples") + r.Get("hash_tagged_inputs") + r.Get("purity_calls") + r.Get("tag_inputs") + r.Get("commit_edits") + r.Get("builder_layouts") + r.Get("parse_sequences")
 	r.Set("evaluations", ev)
 	dn := 0
 	for _, k := range []string{"hash_distinct_digests_bytes", "hash_distinct_digests_ints", "hash_distinct_digests_tagged"} {
